@@ -34,7 +34,7 @@ class ExplicitFile:
         self._comment = ""
         absfilepath = os.path.realpath(filepath)
         if dataset is not None:
-            self._observations = np.array(dataset.values).T
+            self._observations = np.array(dataset.transpose("time", "spectral").values).T
             self._times = np.array(dataset.coords["time"])
             self._spectral_indices = np.array(dataset.coords["spectral"])
             self._file = filepath
